@@ -16,6 +16,13 @@ from .core import NCPU, SPEC_DIR, MachineryError, Run
 JAR = "/opt/veriftools/tla/tla2tools.jar:/opt/veriftools/tla/CommunityModules-deps.jar"
 
 
+def err_excerpt(out: str) -> str:
+    i = out.find("Error:")
+    if i < 0:
+        return out[-3000:]
+    return out[max(0, i - 200): i + 2500]
+
+
 def spec_dir(run: Run) -> str:
     """Copy of /verif/spec in the scratch directory (generated modules are written next to it)."""
     d = os.path.join(run.work, "spec")
@@ -113,7 +120,7 @@ def run_tlc(run: Run, module: str, cfg: str | None = None, *, env=None, workers=
     ok = (rc == 0) and not st["errors"] and not st["violated"]
     st["ok"] = ok
     if check and not ok:
-        raise MachineryError(f"TLC failed on {module} (rc={rc}, violated={st['violated']}):\n{out[-4000:]}")
+        raise MachineryError(f"TLC failed on {module} (rc={rc}, violated={st['violated']}):\n{err_excerpt(out)}")
     return st
 
 
@@ -145,7 +152,7 @@ def validate_traces(run: Run, module: str, traces: list, *, cfg=None, chunk=4000
         st = run_tlc(run, module, cfg, env=e, workers=1, timeout=timeout, heap=heap,
                      tag=f"{module}-chunk{i}", check=False)
         if st["errors"] or st["rc"] != 0:
-            raise MachineryError(f"trace validation failed ({module} chunk {i}):\n{st['output'][-3000:]}")
+            raise MachineryError(f"trace validation failed ({module} chunk {i}):\n{err_excerpt(st['output'])}")
         res = {t: (r, n) for t, r, n in st["results"]}
         if len(res) != len(chunks[i]):
             raise MachineryError(
